@@ -12,12 +12,14 @@ CONSTANTS MODE, NFUEL, NDFUEL, EMIT, RICH, MAXBYTES, LIGHT, HDEPTH
 \* injected failure points: none (-1), or failing the k-th primitive call for k < NFUEL / NDFUEL
 FUELS == {-1} \cup 0..(NFUEL - 1)
 DFUELS == {-1} \cup 0..(NDFUEL - 1)
-VARIABLES phase, p, san0, fuel0, ch0, dfuel0, inv   \* inv: the injected violation (mode "invalid"), or "None"
+VARIABLES phase, p, san0, fuel0, ch0, dfuel0, cid, inv   \* inv: the injected violation (mode "invalid"), or "None"
 
 Corpus == JsonDeserialize(IOEnv.CORPUS_FILE)
 MCTypes == Corpus.types
 Progs == Corpus.progs
-vars == <<w, stack, status, exc, fuel, result, r, dstack, dstatus, dexc, dfuel, dresult, phase, p, san0, fuel0, ch0, dfuel0, inv>>
+\* modes "given" / "givenbytes": cases recorded by the harness (pattern V): [p, obj, san0] / [p, data, ch0]; cid = index of the case
+Cases == IF MODE \in {"given", "givenbytes"} THEN JsonDeserialize(IOEnv.CASES_FILE) ELSE <<>>
+vars == <<w, stack, status, exc, fuel, result, r, dstack, dstatus, dexc, dfuel, dresult, phase, p, san0, fuel0, ch0, dfuel0, cid, inv>>
 meta == <<p, san0, fuel0>>
 
 TinyDoms == [byte |-> {L(255)}, char |-> {L(1)}, short |-> {L(64008)}, three |-> {L(3)}, int |-> {L(4)}, strs |-> {<<98, 99>>}, alpha |-> {97},
@@ -37,8 +39,17 @@ ByteStrings(n) == UNION {[1..k -> {0, 1, 2, 254, 255}] : k \in 0..n}
 
 Init ==
   /\ inv = [what |-> "", stray |-> FALSE]
-  /\ p \in {i \in 1..Len(Progs) : MODE # "rt" \/ Progs[i].rt} /\ fuel0 \in FUELS
-  /\ IF MODE = "bytes"
+  /\ fuel0 \in FUELS
+  /\ IF MODE = "given"
+     THEN /\ cid \in 1..Len(Cases) /\ p = Cases[cid].p /\ phase = "ser" /\ san0 = Cases[cid].san0 /\ ch0 = FALSE /\ dfuel0 = -1
+          /\ SInit(Progs[p].code, Progs[p].name, Given(Cases[cid].obj), san0, fuel0)
+          /\ r = Idle.r /\ dstack = Idle.dstack /\ dstatus = Idle.dstatus /\ dexc = Idle.dexc /\ dfuel = Idle.dfuel /\ dresult = Idle.dresult
+     ELSE IF MODE = "givenbytes"
+     THEN /\ cid \in 1..Len(Cases) /\ p = Cases[cid].p /\ phase = "de" /\ san0 = FALSE /\ ch0 = Cases[cid].ch0 /\ dfuel0 = -1
+          /\ w = [bytes |-> <<>>, san |-> FALSE] /\ stack = <<>> /\ status = "idle" /\ exc = "" /\ fuel = -1 /\ result = NoneV
+          /\ DInit(Cases[cid].data, Progs[p].code, Progs[p].name, ch0, dfuel0)
+     ELSE /\ cid = 0 /\ p \in {i \in 1..Len(Progs) : MODE # "rt" \/ Progs[i].rt}
+  /\ IF MODE \in {"given", "givenbytes"} THEN TRUE ELSE IF MODE = "bytes"
      THEN /\ phase = "de" /\ san0 = FALSE /\ ch0 \in BOOLEAN /\ dfuel0 \in DFUELS
           /\ w = [bytes |-> <<>>, san |-> FALSE] /\ stack = <<>> /\ status = "idle" /\ exc = "" /\ fuel = -1 /\ result = NoneV
           /\ \E data \in ByteStrings(MAXBYTES) : DInit(data, Progs[p].code, Progs[p].name, ch0, dfuel0)
@@ -57,17 +68,17 @@ Corruptions(s) ==
        \cup {Insert(s, i, b) : i \in 1..(Len(s) + 1), b \in {0, 254, 255}}
        \cup {s \o j : j \in {<<0>>, <<255>>, <<254, 254>>, <<1, 255, 1>>}}
 
-serIdle == <<r, dstack, dstatus, dexc, dfuel, dresult, phase, p, san0, fuel0, ch0, dfuel0, inv>>
+serIdle == <<r, dstack, dstatus, dexc, dfuel, dresult, phase, p, san0, fuel0, ch0, dfuel0, cid, inv>>
 SerStep == phase \in {"ser", "ser2"} /\ Step /\ UNCHANGED serIdle
 SerReturn == phase \in {"ser", "ser2"} /\ Return /\ UNCHANGED serIdle
 SerUnwind == phase \in {"ser", "ser2"} /\ Unwind /\ UNCHANGED serIdle
 \* mode "mut": a history of attempted mutations of the finished instance; the instance (result) and its bytes (w.bytes) never change
 ToMut == /\ phase = "ser" /\ status = "done" /\ exc = "" /\ MODE = "mut" /\ phase' = "mut" /\ inv' = [hist |-> <<>>]
-         /\ UNCHANGED <<w, stack, status, exc, fuel, result, r, dstack, dstatus, dexc, dfuel, dresult, p, san0, fuel0, ch0, dfuel0>>
+         /\ UNCHANGED <<w, stack, status, exc, fuel, result, r, dstack, dstatus, dexc, dfuel, dresult, p, san0, fuel0, ch0, dfuel0, cid>>
 MutStep == /\ phase = "mut" /\ Len(inv.hist) < HDEPTH
            /\ LET ts == Targets(Progs[p].code, result, <<>>) \o <<Act("serialize", <<>>, "", "")>>
                IN  \E k \in 1..Len(ts) : inv' = [hist |-> Append(inv.hist, [act |-> ts[k], outcome |-> Outcome(ts[k])])]
-           /\ UNCHANGED <<w, stack, status, exc, fuel, result, r, dstack, dstatus, dexc, dfuel, dresult, phase, p, san0, fuel0, ch0, dfuel0>>
+           /\ UNCHANGED <<w, stack, status, exc, fuel, result, r, dstack, dstatus, dexc, dfuel, dresult, phase, p, san0, fuel0, ch0, dfuel0, cid>>
 \* mode "invalid": the valid object just serialized is violated in one place and serialized again
 ToInvalid == /\ phase = "ser" /\ status = "done" /\ exc = "" /\ MODE = "invalid"
              /\ LET ms == Mutations(Progs[p].code, Progs[p].name, result)
@@ -78,13 +89,13 @@ ToInvalid == /\ phase = "ser" /\ status = "done" /\ exc = "" /\ MODE = "invalid"
                                       inch |-> FALSE, missing |-> FALSE, lens |-> [x \in {} |-> 0], dest |-> [k |-> "root"], cls |-> Progs[p].name]>>
                        /\ status' = "running" /\ exc' = "" /\ fuel' = -1 /\ result' = ms[k].obj
              /\ phase' = "ser2"
-             /\ UNCHANGED <<r, dstack, dstatus, dexc, dfuel, dresult, p, san0, fuel0, ch0, dfuel0>>
+             /\ UNCHANGED <<r, dstack, dstatus, dexc, dfuel, dresult, p, san0, fuel0, ch0, dfuel0, cid>>
 ToDeser == /\ phase = "ser" /\ status = "done" /\ exc = "" /\ MODE \in {"rt", "hostile"}
            /\ phase' = "de"
            /\ \E data \in Corruptions(w.bytes) : \E c \in (IF MODE = "rt" \/ LIGHT THEN {FALSE} ELSE BOOLEAN) : \E df \in DFUELS :
                 ch0' = c /\ dfuel0' = df /\ SetDeser(DStartState(data, Progs[p].code, Progs[p].name, c, df))
-           /\ UNCHANGED <<w, stack, status, exc, fuel, result, p, san0, fuel0, inv>>
-deIdle == <<w, stack, status, exc, fuel, result, phase, p, san0, fuel0, ch0, dfuel0, inv>>
+           /\ UNCHANGED <<w, stack, status, exc, fuel, result, p, san0, fuel0, cid, inv>>
+deIdle == <<w, stack, status, exc, fuel, result, phase, p, san0, fuel0, ch0, dfuel0, cid, inv>>
 DeStep == phase = "de" /\ DStep /\ UNCHANGED deIdle
 DeReturn == phase = "de" /\ DReturn /\ UNCHANGED deIdle
 DeUnwind == phase = "de" /\ DUnwind /\ UNCHANGED deIdle
@@ -113,14 +124,14 @@ PRoundTrip == (MODE = "rt" /\ phase = "de" /\ dstatus = "done" /\ ~Progs[p].gen)
 PRefused == (phase = "ser2" /\ status = "done" /\ ~inv.stray) => exc \in {"SerializationError", "ValueError"}
 PTerminates == <>(phase = "de" => dstatus \in {"done", "bound"})
 
-SerRec == [kind |-> "ser", prog |-> Progs[p].name, san0 |-> san0, fuel |-> fuel0, exc |-> exc, bytes |-> w.bytes, san_end |-> w.san, obj |-> result]
-DeRec == [kind |-> "de", prog |-> Progs[p].name, data |-> r.data, ch0 |-> ch0, dfuel |-> dfuel0, status |-> dstatus, exc |-> dexc, pos |-> r.pos,
+SerRec == [kind |-> "ser", cid |-> cid, prog |-> Progs[p].name, san0 |-> san0, fuel |-> fuel0, exc |-> exc, bytes |-> w.bytes, san_end |-> w.san, obj |-> result]
+DeRec == [kind |-> "de", cid |-> cid, prog |-> Progs[p].name, data |-> r.data, ch0 |-> ch0, dfuel |-> dfuel0, status |-> dstatus, exc |-> dexc, pos |-> r.pos,
           ch_end |-> r.chunked, obj |-> dresult, src |-> result, rt_ok |-> (MODE = "rt" /\ RoundTripHere)]
 \* C19 on the model: whatever the history, the instance and its serialization are what they were (action property)
 PImmutable == [][(phase = "mut" /\ phase' = "mut") => (result' = result /\ w' = w)]_vars
 MutRec == [kind |-> "mut", prog |-> Progs[p].name, obj |-> result, bytes |-> w.bytes, hist |-> inv.hist]
 InvRec == [kind |-> "inv", prog |-> Progs[p].name, what |-> inv.what, stray |-> inv.stray, exc |-> exc, obj |-> result]
-Emit == /\ (EMIT /\ phase = "ser" /\ status = "done" /\ (MODE = "ser" \/ exc # "")) => PrintT(ToJson(SerRec))
+Emit == /\ (EMIT /\ phase = "ser" /\ status = "done" /\ (MODE \in {"ser", "given"} \/ exc # "")) => PrintT(ToJson(SerRec))
         /\ (EMIT /\ phase = "ser2" /\ status = "done") => PrintT(ToJson(InvRec))
         /\ (EMIT /\ phase = "mut" /\ Len(inv.hist) = HDEPTH) => PrintT(ToJson(MutRec))
         /\ (EMIT /\ phase = "de" /\ dstatus \in {"done", "bound"}) => PrintT(ToJson(DeRec))
